@@ -355,7 +355,7 @@ func c16RunScenario(r *vcore.Run, sc c16Scenario, bound int, deadline time.Durat
 // sender goroutines through the scheduler.
 func c16Probe() error {
 	st := &c16State{sc: c16Scenario{Entry: "ResolveBlob", Scripts: [2]string{"S", "S"}}}
-	vsched.Watchdog = 5 * time.Second
+	vsched.Watchdog = 20 * time.Second
 	defer func() { vsched.Watchdog = 60 * time.Second }()
 	res := vsched.Run(nil, false, st.body)
 	if res.Failed == 4 || res.Sched.NumThreads() < 3 {
